@@ -227,6 +227,14 @@ class _CtxMixin:
 
 
 TCtxI = make_type('TCtxI', cache='default', max_parallel=None, bases=(_CtxMixin,))
+def _filter_fails(self, context):
+    # a task whose failure happens while its context is being filtered
+    if self.beh == 'raise':
+        raise LookupError(f'context lacks what task {self.label} needs')
+    return context
+
+
+TCtxF = make_type('TCtxF', cache='default', max_parallel=None, filter_context=_filter_fails)
 TCtxNone = make_type('TCtxNone', cache='default', max_parallel=None, filter_context=lambda self, context: {})    # asks for nothing
 def _rw_post_init(self):
     # a post_init that canonicalises one of the task's own parameters (the cache key was computed from what was given)
